@@ -37,7 +37,8 @@ EXTENDS FPLiterals
 CONSTANTS StrMaxLen,   \* bodies up to this length, exhaustively
           EncMaxLen,   \* value strings up to this length for the Encode direction
           NRandom,     \* seeded random cases per family
-          Families     \* which families this run generates
+          Families,    \* which families this run generates
+          NarrowWide   \* FALSE: exhaustive 8-bit values; TRUE: also exhaustive 16-bit values for 8/16-bit targets
 
 (******************************* helpers ***********************************)
 RECURSIVE CpsId(_)
@@ -285,8 +286,8 @@ JTemporal(o) ==
               ELSE "none"
       what == CASE step = "lit" -> (IF fractionLost THEN "fraction-lost" ELSE "got-" \o KindOf(o.lit))
                 [] step = "canon-reparse" -> "got-" \o KindOf(o.rt)
-                [] step = "canon-reparse-eq" -> "got-" \o KindOf(o.rteq)
-                [] step = "eq-canonical-literal" -> "not-true"
+                [] step = "canon-reparse-eq" -> (IF IsOne(o.rteq) /\ o.rteq.items[1].t = "b" THEN "false" ELSE "got-" \o KindOf(o.rteq))
+                [] step = "eq-canonical-literal" -> (IF IsOne(o.eqT) /\ o.eqT.items[1].t = "b" THEN "false" ELSE "got-" \o KindOf(o.eqT))
                 [] OTHER -> ""
       sig == IF AnyFailure(outs) THEN "lit-temporal|" \o FailKind(outs)
              ELSE "lit-temporal|" \o p.v.t \o "|p" \o ToString(p.v.p) \o "|fd" \o ToString(FdOf(cs.text)) \o "|" \o step \o "|" \o what
@@ -295,16 +296,329 @@ JTemporal(o) ==
       want |-> IF p.ok THEN Ok(<<p.v>>) ELSE [k |-> "any"]]
 
 (***************************************************************************)
+(* Family 4: proto-precision (System value <-> FHIR primitive element)     *)
+(***************************************************************************)
+(* An element is described by its kind, precision enum, the components of   *)
+(* its value IN ITS OWN TIMEZONE (components finer than the precision at    *)
+(* their minimum), microseconds, and its timezone: tzs is the spelling      *)
+(* ("Z", "UTC", "" or "num" = (+|-)hh:mm), off the offset in minutes.       *)
+TzPool == {[tzs |-> "Z", off |-> 0], [tzs |-> "UTC", off |-> 0], [tzs |-> "", off |-> 0], [tzs |-> "num", off |-> 0],
+           [tzs |-> "num", off |-> 120], [tzs |-> "num", off |-> -480], [tzs |-> "num", off |-> 330]}
+UsFor(prec) == CASE prec = "MILLISECOND" -> {0, 500000, 123000} [] prec = "MICROSECOND" -> {0, 500000, 123000, 123456, 1}
+                 [] OTHER -> {0}
+El(ek, prec, d, t, us, z) ==
+  LET p == SysPrecOfProto(prec)
+  IN [ek |-> ek, prec |-> prec, y |-> d[1], mo |-> IF p >= 2 THEN d[2] ELSE 1, d |-> IF p >= 3 THEN d[3] ELSE 1,
+      h |-> IF p >= 6 THEN t[1] ELSE 0, mi |-> IF p >= 6 THEN t[2] ELSE 0, sec |-> IF p >= 6 THEN t[3] ELSE 0,
+      us |-> us, tzs |-> z.tzs, off |-> z.off]
+NoTz == [tzs |-> "", off |-> 0]
+Elements ==
+  {El("Date", pr, d, <<0, 0, 0>>, 0, z) : pr \in DateProtoPrecs, d \in DatePool, z \in TzPool}
+  \cup {El("DateTime", pr, d, <<0, 0, 0>>, 0, z) : pr \in {"YEAR", "MONTH", "DAY"}, d \in DatePool, z \in TzPool}
+  \cup UNION {{El(ek, pr, d, t, us, z) : d \in DatePool, t \in TimePool, us \in UsFor(pr), z \in TzPool}
+               : ek \in {"DateTime", "Instant"}, pr \in {"SECOND", "MILLISECOND", "MICROSECOND"}}
+  \cup UNION {{El("Time", pr, <<1970, 1, 1>>, t, us, NoTz) : t \in TimePool, us \in UsFor(pr)} : pr \in TimeProtoPrecs}
+
+ElId(el) == el.ek \o "." \o el.prec \o "." \o ToString(el.y) \o "-" \o ToString(el.mo) \o "-" \o ToString(el.d) \o "T" \o ToString(el.h)
+            \o "." \o ToString(el.mi) \o "." \o ToString(el.sec) \o "." \o ToString(el.us) \o el.tzs \o ToString(el.off)
+
+(* the System value an element converts to *)
+SysOfEl(el) ==
+  LET p == SysPrecOfProto(el.prec)
+  IN CASE el.ek = "Date" -> MkDate(p, el.y, el.mo, el.d)
+       [] el.ek = "Time" -> MkTime(p, el.h, el.mi, el.sec, el.us \div 1000)
+       [] OTHER -> IF p <= 3 THEN MkDT(p, el.y, el.mo, el.d, 0, 0, 0, 0, FALSE, 0)
+                   ELSE MkDT(p, el.y, el.mo, el.d, el.h, el.mi, el.sec, el.us \div 1000, TRUE, el.off)
+
+(* expressions whose value is converted to an element: literals, or -literal *)
+ProtoToExprs ==
+  {[ek |-> "Date", expr |-> DescText(ds)] : ds \in {x \in TemporalDescs : x.k = "date"}}
+  \cup {[ek |-> "DateTime", expr |-> DescText(ds)] : ds \in {x \in TemporalDescs : x.k = "dtp" \/ (x.k = "dt" /\ Len(x.f) \in {0, 3})}}
+  \cup {[ek |-> "Time", expr |-> DescText(ds)] : ds \in {x \in TemporalDescs : x.k = "time" /\ Len(x.f) \in {0, 3}}}
+  \cup {[ek |-> "Decimal", expr |-> sg \o t] : sg \in {<<>>, <<cMinus>>},
+          t \in LongTexts \cup {ip \o <<cDot>> \o fp : ip \in IntParts, fp \in FracParts}}
+  \cup {[ek |-> "Integer", expr |-> sg \o t] : sg \in {<<>>, <<cMinus>>}, t \in {D_(<<0>>), D_(<<1>>), D_(<<4, 2>>), D_(<<2, 1, 4, 7, 4, 8, 3, 6, 4, 7>>)}}
+  \cup {[ek |-> "Quantity", expr |-> t] : t \in QuantityTexts}
+
+ProtoCases ==
+  {[kind |-> "proto-precision", id |-> "Pfrom:" \o ElId(el), sub |-> "from", el |-> el, canon |-> TemporalLit(SysOfEl(el))] : el \in Elements}
+  \cup {[kind |-> "proto-precision", id |-> "Pto:" \o x.ek \o ":" \o CpsId(x.expr), sub |-> "to", ek |-> x.ek, expr |-> x.expr] : x \in ProtoToExprs}
+
+(* value of `literal` or `-literal` *)
+ValueOfExpr(e) ==
+  IF Len(e) > 0 /\ e[1] = cMinus
+    THEN LET p == ParseLit(Tail(e))
+         IN IF ~p.ok THEN p
+            ELSE IF p.v.t = "i" THEN [ok |-> TRUE, v |-> I(0 - p.v.i)]
+            ELSE IF p.v.t = "d" THEN [ok |-> TRUE, v |-> DItem(DNeg(DOfItem(p.v)))]
+            ELSE Bad("sign")
+    ELSE ParseLit(e)
+
+SigDigitsClass(d) == IF NDigits(d.m) <= 15 THEN "le15" ELSE "16plus"
+
+(* components of an observed element agree with a System value down to the value's precision *)
+ElMatches(el, v) ==
+  LET p == v.p
+  IN /\ (v.t # "time" => el.y = v.y /\ (p >= 2 => el.mo = v.mo) /\ (p >= 3 => el.d = v.d))
+     /\ (v.t # "date" /\ p >= 4 => el.h = v.h)
+     /\ (v.t # "date" /\ p >= 5 => el.mi = v.mi)
+     /\ (v.t # "date" /\ p >= 6 => el.sec = v.sec)
+     /\ (v.t # "date" /\ p >= 7 => el.us = v.ms * 1000)
+
+(* o.sys: XFromProto(el); o.from: system.From(el); o.eq: %x = canon with x the converted value *)
+JProtoFrom(o) ==
+  LET cs == o.cs
+      exp == SysOfEl(cs.el)
+      outs == {o.sys, o.from, o.eq}
+      isV(out) == IsOne(out) /\ TemporalSame(out.items[1], exp)
+      step == IF ~isV(o.sys) THEN "from-proto" ELSE IF ~isV(o.from) THEN "system-from"
+              ELSE IF ~IsTrue(o.eq) THEN "eq-canonical-literal" ELSE "none"
+      bad == IF step = "from-proto" THEN o.sys ELSE IF step = "system-from" THEN o.from ELSE o.eq
+      good == ~AnyFailure(outs) /\ step = "none"
+      sig == "proto-precision|from|" \o cs.el.ek \o "|" \o cs.el.prec \o "|tz-" \o cs.el.tzs \o "|" \o
+             (IF AnyFailure(outs) THEN FailKind(outs)
+              ELSE step \o "|" \o (IF step = "eq-canonical-literal" /\ IsOne(o.eq) /\ o.eq.items[1].t = "b" THEN "false" ELSE "got-" \o KindOf(bad)))
+  IN [ok |-> good, sig |-> IF good THEN "" ELSE sig, want |-> Ok(<<exp>>)]
+
+(* o.val: the expression's value; o.el: the projected element ([ek |-> "none"] when the call failed);  *)
+(* o.call: outcome kind of ToProtoX; o.back: system.From(element)                                     *)
+JProtoTo(o) ==
+  LET cs == o.cs
+      pv == ValueOfExpr(cs.expr)
+      v == pv.v
+      el == o.el
+      valOk == IsOne(o.val) /\ ValueSame(o.val.items[1], v)
+      callFailed == o.call.k # "ok"
+      temporal == v.t \in {"date", "time", "dt"}
+      pp == IF temporal THEN ProtoPrecOfSys(v.t, v.p) ELSE "n/a"
+      backSame == IsOne(o.back) /\
+                  CASE v.t = "dt" /\ o.back.items[1].t = "dt" -> TemporalSame([o.back.items[1] EXCEPT !.tz = IF v.tz THEN @ ELSE FALSE, !.off = IF v.tz THEN @ ELSE 0], v)
+                    [] OTHER -> ValueSame(o.back.items[1], v)
+      step ==
+        IF ~pv.ok \/ ~valOk THEN "none"      \* the literal itself is family 2/3's business
+        ELSE IF callFailed THEN "call"
+        ELSE IF temporal THEN
+          IF pp = "none" THEN "none"                                                     \* L6
+          ELSE IF el.prec # pp THEN "precision"
+          ELSE IF v.t = "time" /\ ~el.inday THEN "value-us-outside-day"
+          ELSE IF ~ElMatches(el, v) THEN "value"
+          ELSE IF v.t = "dt" /\ v.p >= 4 /\ v.tz /\ ~(el.offok /\ el.off = v.off) THEN "offset"
+          ELSE IF ~backSame THEN "back" ELSE "none"
+        ELSE IF v.t = "d" THEN (IF el.dec.t = "d" /\ DEq(DOfItem(el.dec), DOfItem(v)) THEN (IF backSame THEN "none" ELSE "back") ELSE "value-differs")
+        ELSE IF v.t = "i" THEN (IF el.i = v.i THEN (IF backSame THEN "none" ELSE "back") ELSE "value-differs")
+        ELSE IF v.t = "q" THEN
+          IF ~(el.dec.t = "d" /\ DEq(DOfItem(el.dec), DOfItem(v.val))) THEN "value-differs"
+          ELSE IF ~(el.code = v.unit \/ el.unit = v.unit) THEN "unit-lost"
+          ELSE IF ~backSame THEN "back" ELSE "none"
+        ELSE "none"
+      detail == CASE step = "value-differs" /\ v.t = "d" -> "|sig-digits-" \o SigDigitsClass(DOfItem(v))
+                  [] step = "value-differs" /\ v.t = "q" -> "|sig-digits-" \o SigDigitsClass(DOfItem(v.val))
+                  [] step = "precision" -> "|p" \o ToString(v.p) \o "-got-" \o el.prec
+                  [] step = "back" /\ v.t = "q" /\ IsOne(o.back) /\ o.back.items[1].t = "q" /\ o.back.items[1].unit = <<>> /\ v.unit # <<>> -> "|unit-lost"
+                  [] step = "back" /\ v.t = "q" /\ IsOne(o.back) /\ o.back.items[1].t = "q" -> "|sig-digits-" \o SigDigitsClass(DOfItem(v.val))
+                  [] step = "back" /\ v.t = "d" -> "|sig-digits-" \o SigDigitsClass(DOfItem(v))
+                  [] step = "back" -> "|p" \o ToString(v.p) \o "|got-" \o KindOf(o.back)
+                  [] step = "call" -> "|" \o o.call.k
+                  [] step = "value" -> "|p" \o ToString(v.p)
+                  [] OTHER -> ""
+      outs == {o.val, o.call, o.back}
+      good == ~AnyFailure(outs) /\ step = "none"
+      sig == "proto-precision|to|" \o cs.ek \o "|" \o (IF AnyFailure(outs) THEN FailKind(outs) ELSE step \o detail)
+  IN [ok |-> good, sig |-> IF good THEN "" ELSE sig, want |-> IF pv.ok THEN Ok(<<v>>) ELSE [k |-> "any"]]
+
+JProto(o) == IF o.cs.sub = "from" THEN JProtoFrom(o) ELSE JProtoTo(o)
+
+(***************************************************************************)
+(* Family 5: fhir-helpers (internal/fhir Parse*  and  fhirconv *ToString)  *)
+(***************************************************************************)
+(* The FHIR lexical forms: date YYYY[-MM[-DD]]; dateTime = date, or full    *)
+(* date T hh:mm:ss[.f+] zone; instant = the latter; time hh:mm:ss[.f+].     *)
+(* Rendering of an element by the specification: *)
+FracUsText(prec, us) ==
+  CASE prec = "MILLISECOND" -> <<cDot>> \o D3(us \div 1000)
+    [] prec = "MICROSECOND" -> <<cDot>> \o D3(us \div 1000) \o D3(us % 1000)
+    [] OTHER -> <<>>
+ElText(el, zulu) ==
+  LET p == SysPrecOfProto(el.prec)
+  IN IF el.ek = "Time" THEN D2(el.h) \o <<cColon>> \o D2(el.mi) \o <<cColon>> \o D2(el.sec) \o FracUsText(el.prec, el.us)
+     ELSE DateText(IF p > 3 THEN 3 ELSE p, el.y, el.mo, el.d) \o
+          (IF p <= 3 THEN <<>>
+           ELSE <<cT>> \o D2(el.h) \o <<cColon>> \o D2(el.mi) \o <<cColon>> \o D2(el.sec) \o FracUsText(el.prec, el.us)
+                \o (IF zulu /\ el.off = 0 THEN <<cZ>> ELSE NumZoneText(el.off)))
+
+(* Parsing a FHIR text of kind ek into element components: [ok, prec, y, .., us, off, fd] *)
+FracUs(s, i, fd) ==
+  LET dg(k) == IF k <= fd THEN s[i + k - 1] - 48 ELSE 0
+  IN dg(1) * 100000 + dg(2) * 10000 + dg(3) * 1000 + dg(4) * 100 + dg(5) * 10 + dg(6)
+ParseFhir(ek, s) ==
+  IF ek = "Time" THEN
+    LET t == ScanTime(s, 1)
+    IN IF ~t.ok \/ t.p < 6 THEN Bad("syntax") ELSE IF t.next # Len(s) + 1 THEN Bad("syntax")
+       ELSE LET dot == PosOf(s, cDot)
+            IN [ok |-> TRUE, p |-> t.p, y |-> 1970, mo |-> 1, d |-> 1, h |-> t.h, mi |-> t.mi, sec |-> t.sec,
+                us |-> IF t.fd = 0 THEN 0 ELSE FracUs(s, dot + 1, t.fd), fd |-> t.fd, off |-> 0]
+  ELSE
+    LET d == ScanDate(s)
+    IN IF ~d.ok THEN d
+       ELSE IF d.next = Len(s) + 1 THEN
+         (IF ek = "Instant" THEN Bad("instant-needs-time")
+          ELSE [ok |-> TRUE, p |-> d.p, y |-> d.y, mo |-> d.mo, d |-> d.d, h |-> 0, mi |-> 0, sec |-> 0, us |-> 0, fd |-> 0, off |-> 0])
+       ELSE IF ek = "Date" \/ d.p # 3 \/ s[d.next] # cT THEN Bad("syntax")
+       ELSE LET t == ScanTime(s, d.next + 1)
+            IN IF ~t.ok \/ t.p < 6 THEN Bad("syntax")
+               ELSE LET z == ScanZone(s, t.next)
+                        dot == PosOf(s, cDot)
+                    IN IF ~z.ok \/ ~z.tz THEN Bad("zone")
+                       ELSE [ok |-> TRUE, p |-> t.p, y |-> d.y, mo |-> d.mo, d |-> d.d, h |-> t.h, mi |-> t.mi, sec |-> t.sec,
+                             us |-> IF t.fd = 0 THEN 0 ELSE FracUs(s, dot + 1, t.fd), fd |-> t.fd, off |-> z.off]
+
+(* precision enum a FHIR text denotes: by the number of fraction digits *)
+PrecOfParsed(r) == CASE r.p = 1 -> "YEAR" [] r.p = 2 -> "MONTH" [] r.p = 3 -> "DAY" [] r.p = 6 -> "SECOND"
+                     [] r.p = 7 /\ r.fd <= 3 -> "MILLISECOND" [] OTHER -> "MICROSECOND"
+
+(* an observed/parsed component record denotes the element el (to el's precision) *)
+SameAsEl(r, el) ==
+  LET p == SysPrecOfProto(el.prec)
+  IN /\ (el.ek # "Time" => r.y = el.y /\ (p >= 2 => r.mo = el.mo) /\ (p >= 3 => r.d = el.d))
+     /\ (p >= 6 => r.h = el.h /\ r.mi = el.mi /\ r.sec = el.sec /\ r.off = el.off)
+     /\ (el.prec = "MILLISECOND" => r.us \div 1000 = el.us \div 1000)
+     /\ (el.prec = "MICROSECOND" => r.us = el.us)
+
+FhirTexts ==
+  {[ek |-> el.ek, text |-> ElText(el, zulu)] : el \in {e \in Elements : e.tzs \in {"num", "Z"}}, zulu \in BOOLEAN}
+  \cup {[ek |-> "DateTime", text |-> DateText(3, 2020, 2, 29) \o <<cT>> \o TodText(6, <<10, 30, 7>>, f) \o z] :
+          f \in {<<5>>, <<2, 5>>, <<1, 2, 3, 4>>, <<1, 2, 3, 4, 5>>}, z \in {<<cZ>>, NumZoneText(120)}}
+  \cup {[ek |-> "Time", text |-> TodText(6, <<10, 30, 7>>, f)] : f \in {<<5>>, <<2, 5>>, <<1, 2, 3, 4>>, <<1, 2, 3, 4, 5>>}}
+
+HelperCases ==
+  {[kind |-> "fhir-helpers", id |-> "Hfmt:" \o ElId(el), sub |-> "fmt", ek |-> el.ek, el |-> el] : el \in Elements}
+  \cup {[kind |-> "fhir-helpers", id |-> "Hparse:" \o x.ek \o ":" \o CpsId(x.text), sub |-> "parse", ek |-> x.ek, text |-> x.text] : x \in FhirTexts}
+
+(* fmt:  o.s = XToString(el) (code points), o.gs = generic ToString(el), o.js = jsonformat's rendering,      *)
+(*       o.el2 = Parse(o.s) projected ([k |-> "err"] when it fails)                                        *)
+JHelpersFmt(o) ==
+  LET cs == o.cs
+      el == cs.el
+      r == ParseFhir(el.ek, o.s)
+      step == IF o.call.k # "ok" THEN "call"
+              ELSE IF ~(r.ok /\ SameAsEl(r, el) /\ PrecOfParsed(r) = el.prec) THEN "format"
+              ELSE IF o.gs # o.s THEN "generic-tostring-differs"
+              ELSE IF o.js # o.s THEN "differs-from-jsonformat"
+              ELSE IF o.el2.k # "ok" THEN "parse-of-format-fails"
+              ELSE IF ~(o.el2.prec = el.prec /\ SameAsEl(o.el2, el)) THEN "parse-of-format-differs"
+              ELSE "none"
+      good == ~IsFailure(o.call) /\ step = "none"
+      sig == "fhir-helpers|fmt|" \o el.ek \o "|" \o el.prec \o "|tz-" \o el.tzs \o "|" \o (IF IsFailure(o.call) THEN o.call.k ELSE step)
+  IN [ok |-> good, sig |-> IF good THEN "" ELSE sig, want |-> [k |-> "text", cp |-> ElText(el, FALSE)]]
+
+(* parse: o.el = Parse(text) projected, o.s2 = XToString(that element), o.js2 = jsonformat's rendering of it *)
+JHelpersParse(o) ==
+  LET cs == o.cs
+      r == ParseFhir(cs.ek, cs.text)
+      r2 == ParseFhir(cs.ek, o.s2)
+      sameVal(a, b) == a.p = b.p /\ a.y = b.y /\ a.mo = b.mo /\ a.d = b.d /\ a.h = b.h /\ a.mi = b.mi /\ a.sec = b.sec /\ a.us = b.us /\ a.off = b.off
+      elOk == /\ o.el.k = "ok" /\ o.el.y = r.y /\ o.el.mo = r.mo /\ o.el.d = r.d /\ o.el.h = r.h /\ o.el.mi = r.mi /\ o.el.sec = r.sec
+              /\ (cs.ek # "Time" /\ r.p >= 6 => o.el.off = r.off)
+      step == IF ~r.ok THEN "none"
+              ELSE IF o.call.k # "ok" THEN "call"
+              ELSE IF ~elOk THEN "parse-value"
+              ELSE IF o.el.prec # PrecOfParsed(r) THEN (IF r.fd \in {0, 3, 6} THEN "parse-precision" ELSE "parse-precision-odd-fraction")
+              ELSE IF o.el.us # r.us THEN "parse-fraction"
+              ELSE IF ~(r2.ok /\ sameVal(r2, r)) THEN "format-of-parse-differs"
+              ELSE IF o.js2 # o.s2 THEN "differs-from-jsonformat"
+              ELSE "none"
+      good == ~IsFailure(o.call) /\ step = "none"
+      sig == "fhir-helpers|parse|" \o cs.ek \o "|fd" \o ToString(IF r.ok THEN r.fd ELSE 0) \o "|" \o (IF IsFailure(o.call) THEN o.call.k ELSE step)
+  IN [ok |-> good, sig |-> IF good THEN "" ELSE sig, want |-> [k |-> "any"]]
+
+JHelpers(o) == IF o.cs.sub = "fmt" THEN JHelpersFmt(o) ELSE JHelpersParse(o)
+
+(***************************************************************************)
+(* Family 6: narrow                                                        *)
+(***************************************************************************)
+
+(* native bounds, clipped to what a TLC integer can hold (used for the exhaustive ranges) *)
+ClipHi(T) == IF SCmp(HiOf(T), Int32MaxS) > 0 THEN MaxInt32 ELSE SToInt(HiOf(T))
+ClipLo(T) == IF SCmp(LoOf(T), Int32MinS) < 0 THEN MinInt32 ELSE SToInt(LoOf(T))
+RepresentableSmall(n, T) == n >= ClipLo(T) /\ n <= ClipHi(T)      \* n a TLC integer
+
+FhirIntTypes == {"Integer", "UnsignedInt", "PositiveInt"}
+BaseOf(F) == CASE F = "Integer" -> "int32" [] F \in {"UnsignedInt", "PositiveInt"} -> "uint32" [] OTHER -> F
+Clip(lo, hi, F) == [lo |-> IF lo < ClipLo(BaseOf(F)) THEN ClipLo(BaseOf(F)) ELSE lo, hi |-> IF hi > ClipHi(BaseOf(F)) THEN ClipHi(BaseOf(F)) ELSE hi]
+
+RangeCase(api, F, T, lo, hi) ==
+  LET c == Clip(lo, hi, F)
+  IN [kind |-> "narrow", id |-> "R" \o api \o ":" \o F \o ">" \o T \o ":" \o ToString(c.lo) \o ".." \o ToString(c.hi),
+      sub |-> "range", api |-> api, from |-> F, to |-> T, lo |-> c.lo, hi |-> c.hi]
+
+(* chunks of a 16-bit sweep *)
+Chunks16 == {<<-32772 + 4096 * k, -32772 + 4096 * k + 4095>> : k \in 0..24}
+
+(* boundary values: +-2 around every bound of every type, as signed BigNums *)
+Around(b) == {SAdd(b, SFromInt(dx)) : dx \in -2..2}
+BoundaryValues == UNION {Around(HiOf(T)) \cup Around(LoOf(T)) : T \in IntTypes}
+PointCase(api, F, T, v) ==
+  [kind |-> "narrow", id |-> "P" \o api \o ":" \o F \o ">" \o T \o ":" \o (IF v.neg THEN "-" ELSE "") \o CpsId(v.m),
+   sub |-> "point", api |-> api, from |-> F, to |-> T, v |-> v]
+
+NarrowCases ==
+  {RangeCase("narrow", F, T, -130, 258) : F \in IntTypes, T \in IntTypes}
+  \cup {RangeCase("fhirconv", F, T, -130, 258) : F \in FhirIntTypes, T \in IntTypes}
+  \cup UNION {{PointCase("narrow", F, T, v) : T \in IntTypes, v \in {x \in BoundaryValues : Representable(x, F)}} : F \in IntTypes}
+  \cup UNION {{PointCase("fhirconv", F, T, v) : T \in IntTypes, v \in {x \in BoundaryValues : Representable(x, BaseOf(F))}} : F \in FhirIntTypes}
+  \cup (IF NarrowWide
+        THEN {c \in {RangeCase("narrow", F, T, ch[1], ch[2]) : F \in IntTypes, T \in {"int16", "uint16", "int8", "uint8"}, ch \in Chunks16} : c.lo <= c.hi}
+             \cup {c \in {RangeCase("fhirconv", F, T, ch[1], ch[2]) : F \in FhirIntTypes, T \in {"int16", "uint16"}, ch \in Chunks16} : c.lo <= c.hi}
+        ELSE {})
+
+(* range: o.ok and o.res are sequences over lo..hi: 1/0 "converted", and the converted value (0 when not converted) *)
+JNarrowRange(o) ==
+  LET cs == o.cs
+      n == cs.hi - cs.lo + 1
+      wrong == IF Len(o.ok) # n \/ Len(o.res) # n THEN {-1}
+               ELSE {j \in 1..n : LET x == cs.lo + j - 1
+                                  IN (o.ok[j] = 1) # RepresentableSmall(x, cs.to) \/ (o.ok[j] = 1 /\ o.res[j] # x)}
+      good == o.call.k = "ok" /\ wrong = {}
+      j0 == CHOOSE j \in wrong : \A k \in wrong : j <= k
+      x0 == cs.lo + j0 - 1
+      sig == "narrow|" \o cs.api \o "|" \o cs.from \o ">" \o cs.to \o "|" \o
+             (IF o.call.k # "ok" THEN o.call.k
+              ELSE IF j0 = -1 THEN "malformed-lengths"
+              ELSE IF o.ok[j0] = 1 /\ RepresentableSmall(x0, cs.to) THEN "value-changed"
+              ELSE IF o.ok[j0] = 1 THEN "accepted-unrepresentable" ELSE "rejected-representable")
+  IN [ok |-> good, sig |-> IF good THEN "" ELSE sig,
+      want |-> [k |-> "range", first |-> IF good THEN 0 ELSE IF j0 = -1 THEN 0 ELSE x0]]
+
+(* point: o.ok BOOLEAN, o.res signed BigNum (the converted value when ok) *)
+JNarrowPoint(o) ==
+  LET cs == o.cs
+      rep == Representable(cs.v, cs.to)
+      good == o.call.k = "ok" /\ o.ok = rep /\ (o.ok => o.res.neg = cs.v.neg /\ o.res.m = cs.v.m)
+      sig == "narrow|" \o cs.api \o "|" \o cs.from \o ">" \o cs.to \o "|" \o
+             (IF o.call.k # "ok" THEN o.call.k
+              ELSE IF o.ok /\ rep THEN "value-changed"
+              ELSE IF o.ok THEN "accepted-unrepresentable" ELSE "rejected-representable")
+  IN [ok |-> good, sig |-> IF good THEN "" ELSE sig, want |-> [k |-> "point", ok |-> rep]]
+
+JNarrow(o) == IF o.cs.sub = "range" THEN JNarrowRange(o) ELSE JNarrowPoint(o)
+
+(***************************************************************************)
 (* all cases of the selected families                                      *)
 (***************************************************************************)
 CasesOf(fam, seed) ==
   CASE fam = "lit-string" -> StringCases(seed)
     [] fam = "lit-decimal" -> NumberCases(seed)
     [] fam = "lit-temporal" -> TemporalCases(seed)
+    [] fam = "proto-precision" -> ProtoCases
+    [] fam = "fhir-helpers" -> HelperCases
+    [] fam = "narrow" -> NarrowCases
 
 Judge(o) ==
   CASE o.kind = "lit-string" -> JString(o)
     [] o.kind = "lit-decimal" -> JNumber(o)
     [] o.kind = "lit-temporal" -> JTemporal(o)
+    [] o.kind = "proto-precision" -> JProto(o)
+    [] o.kind = "fhir-helpers" -> JHelpers(o)
+    [] o.kind = "narrow" -> JNarrow(o)
     [] OTHER -> [ok |-> FALSE, sig |-> "malformed|unknown-kind", want |-> [k |-> "any"]]
 =============================================================================
